@@ -124,7 +124,7 @@ def handle (toks : List Str) : Str :=
       else
         let a := exec rootP ctx sm r0.sh r0.world
         let changed := Comp.all.filter (fun c => compChanged c (prepare ctx r0.sh) a.shell)
-        let leaked := Comp.all.filter (fun c => compChanged c (parentOwn rootP ctx sm r0.sh) a.shell)
+        let leaked := Comp.all.filter (fun c => compChanged c (parentOwn rootP ctx sm r0.sh r0.world) a.shell)
         let isCv := ctx = .cmdsub || ctx = .backq
         "st=".toList ++ (if a.aborted then "none".toList else showStatus ctx a.status) ++
         " sub=".toList ++ esc (if isCv then [] else textLines a.out) ++
